@@ -21,7 +21,7 @@
 (* Invariants                                                                           *)
 (*   ContractSane       : an original is a good result of each of its erasures          *)
 (*   ModelTerminates, ModelGoodResult, ModelErasure (= ModelMeetsContract): the         *)
-(*                        algorithm model, with FinalOccursCheck / AnnotVarCheck        *)
+(*                        algorithm model, with ExactOccursCheck / AnnotVarCheck        *)
 (*                        mirroring the code that is present, never diverges; what it   *)
 (*                        returns is a GoodResult and satisfies the erasure clause      *)
 (* Configurations: *_gen.cfg (input space + ContractSane; every state is recorded by    *)
@@ -35,7 +35,7 @@ CONSTANTS MaxSize,           \* size bound of typed terms
           AtomKinds,         \* subset of {"A","E","L","F","P","N","B","M"}: kinds of the first two atoms
           LongKinds,         \* kinds of the atoms after the second
           Variants,          \* which erasures a typed state stands for: set of <<keep pattern, variables declared>>
-          FinalOccursCheck,  \* the implementation checks the final binding for cycles
+          ExactOccursCheck,  \* the implementation's occurs check follows the bindings (exact reachability)
           AnnotVarCheck,     \* ... unifies annotated occurrences of a variable with its other occurrences
           WithModel          \* evaluate the algorithm model (the *_model configurations)
 
@@ -133,7 +133,7 @@ CasesOf(f, t, c) ==
   THEN { Case("typed", v[1], v[2], EraseP(t, v[1]), IF v[2] THEN DeclCtx(t) ELSE NoCtx, t) : v \in Variants }
   ELSE IF c = <<>> THEN {} ELSE { Case("cs", "none", FALSE, t, NoCtx, NoTerm) }
 \* names of the contract clauses that the algorithm model fails on a case
-MOut(c) == Outcome(c.skel, c.ctx, Sig, FinalOccursCheck, AnnotVarCheck, TRUE)
+MOut(c) == Outcome(c.skel, c.ctx, Sig, Opt(ExactOccursCheck, AnnotVarCheck), TRUE)
 ModelClauses(c) ==
   LET o == MOut(c) IN
   (IF o.kind = "diverged" THEN {"Terminates"} ELSE {})
@@ -166,7 +166,7 @@ TypedOK == fam = "typed" => Ty(cur) # Err /\ ~HasNone(cur) /\ ConstInst(cur, Sig
 ContractSane == fam = "typed" => \A c \in Cases : GoodResult(c.skel, c.ctx, Sig, c.orig) /\ IsErasureOf(c.skel, c.orig)
                                                   /\ (c.declared => ErasureApplies(c.skel, c.ctx, Sig, c.orig))
 \* mc = the clauses failed by the algorithm model on the cases of the state (computed once, in the action)
-\* the final substitution loop of the algorithm terminates (no cyclic binding is accepted)
+\* unify and the final substitution loop of the algorithm terminate (no cyclic binding is accepted)
 ModelTerminates == "Terminates" \notin mc
 \* what the algorithm returns satisfies the contract
 ModelGoodResult == mc \cap {"Determined", "WellTyped", "SameShape", "KeepAnnot", "KeepDecl", "OneType", "ConstInst", "NoInternal"} = {}
